@@ -245,6 +245,24 @@ def run(ctx):
     else:
         ctx.note("live positive: %d unlocked sibling sink(s) fail R09.1 as expected" % alive)
 
+    from .common import fx, static_locals
+    g = fx(ctx, "unlocked_sink::sink")
+    ctx.fixture("R09.1", "unlocked_sink::sink", g is not None and any(not st for _, _, st in analyse_method(g, "std::cout")), True, "unlocked stream use recognised")
+    g = fx(ctx, "unlocked_sink::narrowed")
+    res = analyse_method(g, "std::cout") if g is not None else []
+    ctx.fixture("R09.1", "unlocked_sink::narrowed", len(res) == 2 and bool(res[0][2]) != bool(res[1][2]), True, "flush outside the lock scope recognised")
+    for nm, want in (("unlocked_sink::narrowed", "bad"), ("unlocked_sink::automatic", "bad")):
+        g = fx(ctx, nm)
+        verdicts = []
+        if g is not None:
+            for bid, i, e in g.all_elems():
+                ld = lock_decl(e)
+                if ld:
+                    verdicts.append(mutex_storage(ctx, cg, g, ld[1])[0])
+        ctx.fixture("R09.2", nm + ":mutex", want in verdicts, True, "bad mutex storage recognised")
+    g = fx(ctx, "shared_buffer")
+    ctx.fixture("R09.4", "shared_buffer", g is not None and bool(static_locals(g)), True, "static/thread_local buffer recognised")
+
     # ---- R09.3: logger / smart_stream / other code never touches the streams
     offenders = 0
     scanned = 0
